@@ -185,15 +185,15 @@ impl<Tz: TimeZone> DurationRound for DateTime<Tz> {
     type Err = RoundingError;
 
     fn duration_round(self, duration: TimeDelta) -> Result<Self, Self::Err> {
-        duration_round(self.naive_local(), self, duration)
+        duration_round(self.overflowing_naive_local(), self, duration)
     }
 
     fn duration_trunc(self, duration: TimeDelta) -> Result<Self, Self::Err> {
-        duration_trunc(self.naive_local(), self, duration)
+        duration_trunc(self.overflowing_naive_local(), self, duration)
     }
 
     fn duration_round_up(self, duration: TimeDelta) -> Result<Self, Self::Err> {
-        duration_round_up(self.naive_local(), self, duration)
+        duration_round_up(self.overflowing_naive_local(), self, duration)
     }
 }
 
